@@ -25,7 +25,7 @@ fn send_stub<T>(_s: &mpsc::Sender<T>, t: T) -> std::result::Result<(), mpsc::Sen
 
 fn mk_pool(workers: usize, max: usize, busy: usize) -> ThreadPool {
     let (sender, receiver) = mpsc::channel();
-    let mut ws = Vec::with_capacity(8);
+    let mut ws = Vec::with_capacity(10);
     let mut i = 0;
     while i < workers {
         ws.push(Worker { thread: None });
@@ -41,11 +41,23 @@ fn mk_pool(workers: usize, max: usize, busy: usize) -> ThreadPool {
 }
 
 #[kani::proof]
+#[kani::unwind(12)]
+#[kani::stub(Worker::new, worker_new_stub)]
+#[kani::stub(std::sync::mpsc::Sender::send, send_stub)]
+fn c14_execute_step_b8() {
+    execute_step(8);
+}
+
+#[kani::proof]
 #[kani::unwind(8)]
 #[kani::stub(Worker::new, worker_new_stub)]
 #[kani::stub(std::sync::mpsc::Sender::send, send_stub)]
 fn c14_execute_step() {
-    let sc = draw(&mut KSrc, 5);
+    execute_step(5);
+}
+
+fn execute_step(bound: u8) {
+    let sc = draw(&mut KSrc, bound);
     let (w, max, o) = (sc.workers as usize, sc.max as usize, sc.outstanding as usize);
     kani::assume(invariant(w, max, o));
     // the pool's busy counter stands for the unfinished connections (submitted, not done)
